@@ -312,6 +312,35 @@ def _reload(ck, fx, cg):
             from .c08 import _is_plain_forward
             okf, whyf = _is_plain_forward(fb, "std::io::Read::" + item)
             ck.ob("R3.source", "NamedSource|%s forwards" % item, okf, loc(fb), whyf)
+    from . import shared as _sh
+    okd, whered, whyd = _sh.bc_deserialize_plain(fx, A)
+    if ck.anchor("R3.source", "BCSerializer::deserialize", True if okd is not None else None):
+        ck.ob("R3.source", "the bytecode deserializer hands the reader untouched to Program::from_bytes", okd is True, whered, whyd)
+    # the loader refuses a file only where decoding itself fails (a read, a tag, UTF-8, a label that is not in the pool):
+    # an explicit refusal (bail! / ensure! / panic! / assert!) at the level of the whole program is a *validation* the
+    # format does not state — a program the writer emitted and `run` executes may then fail to load
+    try:
+        exf, pathsf = lrun(fx, A.get("program.from_bytes"), [("var", "input")])
+    except Exception as e:
+        pathsf = None
+    if pathsf is not None:
+        explicit = []
+        n_fail = 0
+        for p in pathsf:
+            o = p["out"]
+            failing = o[0] == "panic" or (o[0] == "val" and isinstance(o[1], tuple) and o[1] and o[1][0] == "err")
+            if not failing:
+                continue
+            n_fail += 1
+            made = [e for e in p["eff"] if e["k"] == "call" and (e["args"][0][1].startswith("anyhow::private::") or e["args"][0][1].endswith("::format_err")
+                                                                  or e["args"][0][1].startswith("anyhow::Error::msg"))]
+            raised = o[0] == "panic" and isinstance(o[1], str) and ("panic_fmt" in o[1] or "begin_panic" in o[1] or "panic_display" in o[1] or "assert_failed" in o[1])
+            if made or raised:
+                explicit.append((made[-1]["at"] if made else ([e for e in p["eff"] if e.get("at")] or [{"at": ""}])[-1]["at"]))
+        ck.ob("R3.reload", "the loader refuses a file only where decoding fails", not explicit, explicit[0] if explicit else "",
+              "%d failing path(s) of Program::from_bytes, none raised by an explicit check" % n_fail if not explicit else
+              "%d of %d failing path(s) are explicit refusals (bail!/ensure!/panic!) added on top of decoding, first at %s: files the writer produces and `run` accepts can be rejected on load" % (
+                  len(explicit), n_fail, explicit[0]))
     # loader: Method arm appends the opcodes read, in order, and records (old length, count)
     rv, err = L.reader_variants(fx, "constant.from_bytes", L.PO)
     ok = False
